@@ -32,7 +32,7 @@ EXTRA_TRUSTED = [
 ]
 
 F_SHARED = "F21"        # a rewritten from-import shares a physical line with another statement
-F_LINEBREAK = "F26"     # splitlines() and the tokenizer disagree about the physical lines
+F_LINEBREAK = "F27"     # splitlines() and the tokenizer disagree about the physical lines
 SPLIT_ONLY = "\x0b\x0c\x1c\x1d\x1e\x85\u2028\u2029"
 REQUIRES = "Require Import D42.Migrate D42.MigrateCase D42Gen.GenMapping."
 
@@ -110,16 +110,19 @@ def shared_line_imports(src, geo=None):
 
 
 def misaligned(src, geo=None):
-    """linebreak classifier, by input shape: a character that only str.splitlines() treats as a
-    line boundary occurs at or before the last physical line of some absolute top-level
-    ImportFrom (so that import's ast line numbers do not index splitlines()' list)."""
+    """linebreak classifier, by input shape: the line list rewrite_imports indexes (since fix
+    F27: io.StringIO(src, newline='').readlines(), i.e. breaks at \\n, \\r\\n, \\r only) differs from
+    the tokenizer's physical lines at or before the last physical line of some absolute
+    top-level ImportFrom.  With the repaired splitting this never happens; before the repair a
+    form feed or another str.splitlines()-only boundary did it."""
+    import io
     geo = geo or Geometry(src)
     last = 0
     for node in geo.body:
         if is_abs_import(node):
             last = max(last, node.end_lineno)
-    head = "".join(geo.pl[:last])
-    return any(c in head for c in SPLIT_ONLY)
+    impl = io.StringIO(src, newline='').readlines()
+    return impl[:last] != list(geo.pl[:last])
 
 
 def classify(src):
@@ -259,7 +262,8 @@ class Abstraction:
         body = geo.body
         ext = [geo.extent(n) for n in body]
         # the implementation's own line list
-        sl = self.src.splitlines(keepends=True)
+        import io
+        sl = io.StringIO(self.src, newline='').readlines()     # as rewrite_imports splits (after fix F27)
         ranges = []
         off = 0
         for ln in sl:
